@@ -32,7 +32,9 @@ json_scalar = st.one_of(st.none(), st.booleans(), st.integers(-2 ** 66, 2 ** 66)
 json_value = st.recursive(json_scalar, lambda ch: st.one_of(st.lists(ch, max_size=3),
                                                             st.dictionaries(st.text(max_size=5), ch, max_size=3)),
                           max_leaves=6)
-priority = st.one_of(st.floats(-5, 5), st.integers(-2, 3), st.sampled_from([0.0, 0.0, 1.0]))
+# (JSON numbers are unbounded: integers beyond the float range are valid priorities too)
+priority = st.one_of(st.floats(-5, 5), st.integers(-2, 3), st.sampled_from([0.0, 0.0, 1.0]),
+                     st.sampled_from([10 ** 400, -10 ** 400, 2 ** 1024, 2 ** 63, 1e308, -1e308, 5e-324]))
 
 
 @st.composite
@@ -356,10 +358,12 @@ def run_transit(c, res):
         optional = {(h_, p_) for (h_, p_) in want if _bad_hostname(h_)}
         # observation, not asserted: hint objects are namedtuples, so a tor-tcp-v1 and a direct-tcp-v1
         # hint with equal (hostname, port, priority) compare equal and one of them can vanish in a set
-        tor_pairs = _tor_pairs(hints)
-        if want & tor_pairs:
+        # (only relay sub-hints are kept in sets by Transit; top-level direct hints are a list and must all be dialled)
+        tor_pairs = _tor_pairs([h for h in hints if isinstance(h, dict) and h.get("type") == "relay-v1"])
+        top_level = ref_targets([h for h in hints if isinstance(h, dict) and h.get("type") != "relay-v1"])
+        if (want & tor_pairs) - top_level:
             res.notes["direct_hint_shadowed_by_equal_tor_hint_possible"] += 1
-        optional |= (want & tor_pairs)
+        optional |= (want & tor_pairs) - top_level
         if not (got <= want and (want - got) <= optional):
             res.violate("filter", "dialled %r, reference filter gives %r; hints %s" % (
                 sorted(got, key=repr), sorted(want, key=repr), _canon(hints)),
